@@ -327,8 +327,12 @@ func c10Dec(c *fw.Ctx, i int) {
 		case 1: // STAP-A
 			k := r.Range(1, 6)
 			pl := []byte{byte(r.Intn(4))<<5 | 24}
+			big := r.Chance(1, 400) // an aggregation packet longer than 64 KiB
 			for q := 0; q < k; q++ {
 				u := gen.H264Unit(r, r.Range(1, 23), r.Pick(2, 3, r.Range(1, 40)))
+				if big {
+					u = gen.H264Unit(r, r.Range(1, 23), r.Pick(20000, 40000, 65535))
+				}
 				units = append(units, u)
 				pl = append(pl, byte(len(u)>>8), byte(len(u)))
 				pl = append(pl, u...)
